@@ -461,6 +461,12 @@ func c04Run(c Case) (Result, error) {
 		fail("identity key comparison inconsistent")
 	}
 	behaves("aggregated key", aggPk, isId, aggSig)
+	// the public key OF the aggregated private key (and of fresh aggregates whose inputs never computed theirs)
+	// is the same point reached by another route: it must behave like it
+	behaves("PublicKey() of the aggregated private key", aggSk.PublicKey(), isId, aggSig)
+	if fsk, e := crypto.AggregateBLSPrivateKeys(append([]crypto.PrivateKey{}, sks...)); e == nil {
+		behaves("PublicKey() of a second aggregate of the private keys", fsk.PublicKey(), isId, aggSig)
+	}
 	if crypto.IsBLSSignatureIdentity(aggSig) != bytes.Equal(aggSig, idSig) {
 		fail("IsBLSSignatureIdentity(agg(sigs)) inconsistent with the encoding")
 	}
